@@ -64,6 +64,20 @@ class _Rewrite(ast.NodeTransformer):
 
     visit_GeneratorExp = visit_ListComp = visit_SetComp = visit_DictComp = _comp
 
+    def visit_Compare(self, node):
+        # torch.device objects are compared by value (`x.device is y.device` is a statement about the device)
+        if any(isinstance(o, (ast.Is, ast.IsNot)) for o in node.ops) and '.device' in ast.unparse(node):
+            node.ops = [ast.Eq() if isinstance(o, ast.Is) else ast.NotEq() if isinstance(o, ast.IsNot) else o for o in node.ops]
+        self.generic_visit(node)
+        return node
+
+    def visit_Attribute(self, node):
+        # f.will_be (the tensor a future stands for) is awaited(f) at run time
+        self.generic_visit(node)
+        if node.attr == 'will_be' and isinstance(node.ctx, ast.Load):
+            return ast.Call(func=ast.Name('awaited', ast.Load()), args=[node.value], keywords=[])
+        return node
+
     def visit_Call(self, node):
         if isinstance(node.func, ast.Name) and node.func.id == 'old':
             arg = node.args[0]
